@@ -47,6 +47,8 @@ type cfg struct {
 	// maskedNeighbour: another subscriber, registered first, with backpressure and a read mask, reads along: what
 	// is cut down for IT is its own copy - the observed subscriber still receives whole values
 	maskedNeighbour bool
+	// emptyValue: the Value is built without an initial value: the subscription opens around its FIRST write
+	emptyValue bool
 }
 
 func (c cfg) name() string {
@@ -64,6 +66,9 @@ func (c cfg) name() string {
 	if c.maskedNeighbour {
 		n += "/+masked backpressured neighbour"
 	}
+	if c.emptyValue {
+		n += "/Value without an initial value"
+	}
 	return n
 }
 
@@ -80,7 +85,9 @@ func body(c cfg) func() {
 		}
 		var val *resource.Value
 		var col *resource.Collection
-		if c.kind == "value" {
+		if c.kind == "value" && c.emptyValue {
+			val = resource.NewValue()
+		} else if c.kind == "value" {
 			val = resource.NewValue(resource.WithInitialValue(msg(0)))
 		} else if c.nodup {
 			col = resource.NewCollection(resource.WithNoDuplicates(), resource.WithInitialRecord("a", msg(0)))
@@ -408,6 +415,12 @@ func main() {
 				w = [][]string{{"set:1", "set:2"}}
 			}
 			c := cfg{kind: kind, backpressure: bp, updatesOnly: true, writers: w, maskedNeighbour: true}
+			h.Sched(c.name(), -1, -1, body(c), hx.StdOracle)
+		}
+	}
+	for _, bp := range []bool{true, false} {
+		for _, w := range [][][]string{{{"set:1"}}, {{"set:1", "set:2"}}, {{"set:1"}, {"set:2"}}} {
+			c := cfg{kind: "value", backpressure: bp, writers: w, emptyValue: true}
 			h.Sched(c.name(), -1, -1, body(c), hx.StdOracle)
 		}
 	}
